@@ -1449,6 +1449,12 @@ func call(n *node) {
 			cc0 := c.child[0]
 			for j := range cc0.typ.ret {
 				ind := c.findex + j
+				if !isSpread && isInterfaceBin(arg) && !isInterface(cc0.typ.ret[j]) {
+					// A result of a script type passed as a host interface is wrapped.
+					res := &node{interp: n.interp, scope: n.scope, pos: c.pos, kind: identExpr, typ: cc0.typ.ret[j], findex: ind, level: c.level}
+					values = append(values, genInterfaceWrapper(res, arg.rtype))
+					continue
+				}
 				if isSpread || !isInterfaceSrc(arg) || isEmptyInterface(arg) {
 					values = append(values, func(f *frame) reflect.Value { return f.data[ind] })
 					continue
